@@ -38,6 +38,7 @@ func checkC01(c *Ctx, r *Report) {
 	importRules(c, r, "C10", "C01.FDEF", "the field definition used for a resolution is looked up in the container type of that resolution (C10.FIELD): a definition remembered from another container (the first member of a union list) coerces the value with the wrong type", "C10.FIELD")
 	importRulesFrom(c, r, "C06", func(c *Ctx, sub *Report) { c06G1(c, sub, a) }, "C01.NESTED", "each element of a list is resolved by the type dispatcher applied to the list's element type (C06.G1): inner lists of [[T]] are mirrored element by element only through the dispatcher", "C06.G1~type dispatcher for the element type")
 	c01FragLink(c, r)
+	c01FragType(c, r, a)
 	r.rule("C01.META", "the Go type recorded for an object type and the type it is compared with are derived from objects in the same way (as C08.METADOM): a union member or interface implementation bound under a different derivation (stripped, re-pointered) is resolved with the wrong method set or not found, so selected fields come back null")
 	c08MetaDom(c, r, "C01.META")
 	r.rule("C01.NATIVE", "lists held in the Go carriers the library walks itself (frozen table) are mirrored by the library's own element loops on every configuration: no path hands such a value to the root resolver's Len/Nth")
